@@ -4,6 +4,8 @@ import (
 	"fmt"
 	"go/token"
 	"go/types"
+	"sort"
+	"strings"
 
 	"golang.org/x/tools/go/ssa"
 )
@@ -33,6 +35,12 @@ func init() {
 		Variant{ID: "c04-r3-heartbeat-resets", Prop: "C04", File: "streamer.go",
 			Old: "\t\tcase ev.IsGTID():\n", New: "\t\tcase ev.IsGTID():\n\t\t\tpos.Offset = ev.NextPosition()\n",
 			Expect: "C04-R3 pos-writer@parser[arm=IsGTID"},
+		Variant{ID: "c04-r6-skip-artificial-rotate", Prop: "C04", File: "streamer.go",
+			Old: "\t\tif format.IsZero() {\n", New: "\t\tif ev.IsRotate() && ev.Timestamp() == 0 {\n\t\t\tcontinue\n\t\t}\n\t\tif format.IsZero() {\n",
+			Expect: "C04-R6 dispatch-reach@parser"},
+		Variant{ID: "c04-r6-skip-small-events", Prop: "C04", File: "streamer.go",
+			Old: "\t\tif format.IsZero() {\n", New: "\t\tif ev.Timestamp() == 0 {\n\t\t\tcontinue\n\t\t}\n\t\tif format.IsZero() {\n",
+			Expect: "C04-R6 dispatch-reach@parser"},
 	)
 }
 
@@ -47,6 +55,61 @@ func runC04(a *A) {
 	c04R3(a, r, ar)
 	c04R4(a, r)
 	c04R5(a, r)
+	c04R6(a, r, ar)
+}
+
+// R6: every accepted event reaches the dispatch. A way round the loop that does not pass the checksum stripping (the
+// entry of the dispatch) is allowed for a format description (handled on the raw event), while no format is known, and
+// for kinds the dispatch has no arm for; any other skip drops an event whose arm would have moved the position, the
+// table cache or the open transaction.
+func c04R6(a *A, r *Roles, ar *Arms) {
+	const rule = "C04-R6"
+	w := a.W
+	if !a.need(r.StripCall != nil, rule, "checksum stripping at the entry of the dispatch") {
+		return
+	}
+	dispatch := map[string]bool{}
+	for _, p := range ar.Preds {
+		if !strings.HasPrefix(p.Name, "raw.") {
+			dispatch[p.Name] = true
+		}
+	}
+	n := 0
+	for _, p := range r.LoopHead.Preds {
+		if !r.LoopHead.Dominates(p) {
+			continue // loop entry
+		}
+		n++
+		key := fmt.Sprintf("dispatch-reach@parser[back#%d]", n)
+		if r.StripCall.Block().Dominates(p) {
+			a.hold(rule, key, w.posOf(lastInstr(p)), "after the dispatch")
+			continue
+		}
+		zero := false
+		for _, ce := range dominatingConds(p) {
+			if c, ok := ce.Cond.(*ssa.Call); ok && ce.Val {
+				if f := c.Common().StaticCallee(); f != nil && f.Name() == "IsZero" && f.Signature.Recv() != nil && namedIs(f.Signature.Recv().Type(), replPath, "BinlogFormat") {
+					zero = true
+				}
+			}
+		}
+		var bad []string
+		for l := range ar.of[p] {
+			switch {
+			case l == "raw.IsFormatDescription":
+			case strings.HasPrefix(l, "raw.") && !dispatch[strings.TrimPrefix(l, "raw.")]:
+			default:
+				bad = append(bad, l)
+			}
+		}
+		sort.Strings(bad)
+		if zero || len(bad) == 0 {
+			a.hold(rule, key, w.posOf(lastInstr(p)), "skips the dispatch only for the format description, before a format is known, or for a kind without an arm")
+		} else {
+			a.viol(rule, key, w.posOf(lastInstr(p)), "an accepted event (%s) goes round the loop without reaching the dispatch although a format is known: its arm (rotation, table map, rows, commit ...) never runs and the position, table cache or open transaction miss it", strings.Join(bad, ","))
+		}
+	}
+	a.atLeast(rule, "dispatch-reach@parser", 2)
 }
 
 // R1: operand 0 of every Return of the parser is a load of the position cell
